@@ -29,7 +29,7 @@ SPEC = dict(
             _e("c10_index", "as quick plus symbolic magic, basics length byte 0 and first basics byte (8 symbolic bytes)", ["indexed-key", "indexed-keyless", "refused"]),
             _e("c10_prefix", "as quick", ["accepted", "refused"]),
         ]),
-    timeout=dict(quick=600, thorough=1800),
+    timeout=dict(quick=900, thorough=5400),
     stubs=["MemObject is zeroed raw memory with storeId_/logUri_/vary_headers constructed in place and set by the harness (its constructor needs HttpReply); StoreEntry is built by its real constructor with key, flags, swap_file_sz, mem_obj set directly",
            "Debug::Extra returns its stream and Debug::Current is null (debug.cc not linked)", "compat/xstring.cc is the real file with its xstrdup renamed away (xstrdup is an engine model)", "debugs() disabled; exception message text (ToSBuf/SBufStream formatting) is outside the claim"],
     assumptions=["URL equality is case-insensitive, as SwapMetaIn.cc documents (strcasecmp); a stored Vary is compared without trailing NUL bytes"],
